@@ -397,14 +397,19 @@ type localState struct {
 func (l *localState) Get(id string) *sessions.Session   { return l.real.Get(id) }
 func (l *localState) ListSessions() []*sessions.Session { return l.real.ListSessions() }
 func (l *localState) Create(id string, s *sessions.Session) *sessions.Session {
+	l.n.W.Gates.at("reg.create")
 	var old *sessions.Session
 	l.n.W.R.Do(func() rec.Ev {
 		old = l.real.Create(id, s)
+		l.n.W.mu.Lock()
+		l.n.W.cnt["reg.create:"+id]++
+		l.n.W.mu.Unlock()
 		return rec.Ev{"op": "reg.create", "n": l.n.ID, "s": id, "mount": s.MountPoint(), "client": s.ClientID()}
 	})
 	return old
 }
 func (l *localState) Delete(id string) *sessions.Session {
+	l.n.W.Gates.at("reg.delete")
 	var old *sessions.Session
 	l.n.W.R.Do(func() rec.Ev {
 		old = l.real.Delete(id)
